@@ -1117,6 +1117,15 @@ func runC19(c *hx.Ctx) {
 			names = append(names, c19RelPath(r))
 		}
 		orders := [][]string{names, c19Shuffled(r, names), c19Shuffled(r, names)}
+		for _, o := range orders[:2] {
+			if !sort.StringsAreSorted(o) {
+				c.Count("hash1-arg:unsorted")
+			} else {
+				c.Count("hash1-arg:sorted")
+			}
+			msg := c19ArgIntact(o, es) // first: c19ArgIntact works on a copy, later calls pass the slice itself
+			c.Check("hash1-argument-unmodified", msg == "", "", c19In{Op: "intact", Orders: c19HexOrders([][]string{o}), Es: c19ToJ(es)}, msg)
+		}
 		res := c19RunHash1(orders[0], es)
 		c.Case("Hash1", wire.L(wire.Strs(orders[0]), c19EntriesVal(es)), res)
 		if r.Intn(4) == 0 {
@@ -1128,15 +1137,6 @@ func runC19(c *hx.Ctx) {
 		c.Check("hash1-formula", msg == "", "", c19In{Op: "formula", Orders: c19HexOrders(orders[:1]), Es: c19ToJ(es)}, msg)
 		msg = c19Order(orders, es)
 		c.Check("order-independence", msg == "", "", c19In{Op: "order", Orders: c19HexOrders(orders), Es: c19ToJ(es)}, msg)
-		for _, o := range orders[:2] {
-			if !sort.StringsAreSorted(o) {
-				c.Count("hash1-arg:unsorted")
-			} else {
-				c.Count("hash1-arg:sorted")
-			}
-			msg = c19ArgIntact(o, es)
-			c.Check("hash1-argument-unmodified", msg == "", "", c19In{Op: "intact", Orders: c19HexOrders([][]string{o}), Es: c19ToJ(es)}, msg)
-		}
 		if i%97 == 0 {
 			c.Sample(fmt.Sprintf("Hash1(%q) = %s", orders[0], res))
 		}
